@@ -63,6 +63,18 @@ def netSpace (directed : Bool) (n : Nat) (edges : List (Nat × Nat)) (cap : Opti
 def vorSpace (n : Nat) (tris : List (Nat × Nat × Nat)) (cap : Option Nat) : Space :=
   { cells := rangeCoords n, conn := vorConn tris, cap := fun _ => cap, isGrid := false, coordKey := fun _ => none }
 
+/-- `round_float`, the default `capacity_function` of `VoronoiGrid`: `int(area * 500)`, for the exact area `num/den`
+    (IEEE rounding of the float area is assumed away; the check compares on point sets where it cannot matter) -/
+def roundFloat (num den : Nat) : Nat := num * 500 / den
+
+/-- a `VoronoiGrid` with the default `capacity_function`: `_build_cell_polygons` overwrites every cell's capacity with
+    `round_float(polygon_area)`; `areas[i]` is the exact area of the i-th Voronoi cell as a fraction -/
+def vorSpaceAreas (n : Nat) (tris : List (Nat × Nat × Nat)) (areas : List (Nat × Nat)) : Space :=
+  { cells := rangeCoords n, conn := vorConn tris, isGrid := false, coordKey := fun _ => none,
+    cap := fun c => match c with
+      | [i] => if 0 ≤ i then (areas[i.toNat]?).map fun a => roundFloat a.1 a.2 else none
+      | _ => none }
+
 structure State where
   occ : Cid → List Aid
   flag : Cid → Option Bool
